@@ -617,10 +617,20 @@ def run(ctx):
     # E. models never reach the table branch ------------------------------------------------------------------------------
     pjt = units.get('PlanJoinTablesQuery.plan_join_tables')
     ctx.need(pjt is not None, 'plan_join_tables not found')
-    calls = [n for n in walk_no_nested(pjt.fn) if isinstance(n, ast.Call) and norm(n.func) == 'self.process_table']
+    calls = [(n, pjt.fn) for n in walk_no_nested(pjt.fn) if isinstance(n, ast.Call) and norm(n.func) == 'self.process_table']
+    if not calls:
+        # the dispatch over the kinds of join members may live in a method plan_join_tables calls (`self.process_member(item, query_in)`)
+        called_ = {c_.func.attr for c_ in walk_no_nested(pjt.fn) if isinstance(c_, ast.Call) and isinstance(c_.func, ast.Attribute) and norm(c_.func.value) == 'self'}
+        for nm_ in sorted(called_):
+            u_ = units.get(f'PlanJoinTablesQuery.{nm_}')
+            if u_ is not None:
+                calls += [(n, u_.fn) for n in walk_no_nested(u_.fn) if isinstance(n, ast.Call) and norm(n.func) == 'self.process_table']
     ctx.need(calls, 'plan_join_tables: no call of process_table')
-    for c in calls:
-        gs = guards_of(c, pjt.fn)
+    for c, host_ in calls:
+        gs = guards_of(c, host_)
+        # ... and the negations of the guard clauses that returned before (`if item.predictor_info is not None: return ...`)
+        from ..cfg import dominating_conditions as _dom
+        gs = list(gs) + [(t_, pol_) for t_, pol_ in _dom(c, host_)]
         ok = any(_implies_no_model(t, pol) for t, pol in gs)
         ctx.ob('C10.model-never-fetched', 'plan_join_tables:process_table', ok,
                'plan_join_tables calls process_table (which builds a fetch from an integration) on a path where the item may be a model',
